@@ -284,7 +284,13 @@ Definition check_eval_case (compiled : ctree expr) (s : env) (fm : list fimpl) (
       end in
   let spec :=
       match e1 with
-      | IErr _ => []
+      | IErr c1 =>
+          (* an assignment that is rejected in one step must be rejected when supplied in several steps, and in any order *)
+          let same (e : impl_result) := match e with
+                                        | IOk _ => [1%nat]
+                                        | IErr c => if String.eqb c "skip" || String.eqb c c1 then [] else [1%nat]
+                                        end in
+          (same e2 ++ same e3)%list
       | IOk t1 =>
           (* simultaneous: value of the result at r = value of the original at (r after s) *)
           (* (implementations of user functions also apply to calls inside the assigned values) *)
